@@ -25,8 +25,8 @@ from pdmesh_common import split
 PROP = "C08"
 LEAVES = ["sphere", "cylinder", "ellipsoid", "line", "core_multi_shell", "barbell", "sphere@hardsphere",
           "cylinder@hayter_msa", "parallelepiped", "lamellar", "power_law", "core_shell_sphere", "guinier",
-          "vesicle@hardsphere"]
-FIXED = ["sphere+vesicle@hardsphere", "core_multi_shell+ellipsoid", "core_multi_shell*sphere+cylinder", "sphere+cylinder", "sphere*cylinder", "cylinder+sphere", "line*sphere", "sphere*line",
+          "vesicle@hardsphere", "mono_gauss_coil", "squarewell"]
+FIXED = ["sphere+mono_gauss_coil", "mono_gauss_coil*cylinder+sphere", "sphere+cylinder+ellipsoid", "sphere+vesicle@hardsphere", "core_multi_shell+ellipsoid", "core_multi_shell*sphere+cylinder", "sphere+cylinder", "sphere*cylinder", "cylinder+sphere", "line*sphere", "sphere*line",
          "barbell+sphere*cylinder@hardsphere", "line*sphere*cylinder", "sphere*cylinder+ellipsoid*line",
          "sphere+sphere", "core_multi_shell+sphere", "sphere@hardsphere+cylinder"]
 
@@ -74,7 +74,8 @@ def run(chk, args):
             for dim, mag in (("1d", False), ("2d", False), ("2d", True)):
                 for zero in ((True, False) if "line" in e else (False,)):
                     tid += 1
-                    scen.append({"tid": tid, "expr": e, "seed": rng.randrange(1 << 30), "dim": dim, "zero": zero, "mag": mag})
+                    scen.append({"tid": tid, "expr": e, "seed": rng.randrange(1 << 30), "dim": dim, "zero": zero, "mag": mag,
+                                 "manypd": tid % 4 == 1})
     work = vlib.scratch("c08")
     try:
         outs = vlib.run_workers_parallel("w_mixture.py", [{"scenarios": p} for p in split(scen, vlib.NCPU)], work, timeout=3000)
